@@ -1289,6 +1289,11 @@ class Exec:
                 payload = self.alloc(snap)
             self.effects.append(("json.dump", path, payload))
             return NONE
+        if dn == "shutil.copy" and not self.spec_mode and len(n.args) == 2 and not n.keywords:
+            # recorded in the effect log as (kind, destination, source); the bytes copied are [A] shutil
+            src, dst = self.eval(n.args[0]), self.eval(n.args[1])
+            self.effects.append(("shutil.copy", dst, src))
+            return NONE
         if dn in DROPPED.EXTERNAL_EFFECT and not self.spec_mode:
             for a in n.args:
                 self.eval_for_effect(a)
